@@ -10,6 +10,26 @@ P = {
    "Every input of the stated alphabets and lengths is parsed in every configuration: the call must return, an Err must carry a message, and inputs an independent structural checker marks as definitely outside the language must be rejected. Exhaustive within the bounds printed in the evidence; the right level because the property is a totality statement over inputs and every known defect has a witness of <= 3 tokens.",
    "panic=unwind build of the crates; 30 s per-case hang watchdog; abort = machinery failure; nesting <= 32",
    "DESIGN.md §5 C01"),
+ "C04": (True, "progen+refliquid", "model_checking",
+   "exhaustive enumeration of all programs up to a node bound over a reused name alphabet; each execution compared with an independent reference interpreter (model) and the caller's data deep-compared",
+   "All programs with <= N statement nodes (nesting <= 4) over assign/copy/increment/decrement/output/include/capture/for/if on 2-3 reused names, instrumented with non-raising probes after every statement, on 4 data objects: output or error status must equal the reference interpreter's, and the caller's data must be unchanged. Model checking of the program space against a model; the conformance step is the per-program comparison itself.",
+   "reference interpreter refl.rs is the model (kept small; unspecified cells are skipped and counted); values truthy so probes are exact; node bound N<=3 quick / N<=4 thorough",
+   "DESIGN.md §5 C04"),
+ "C05": (True, "enum+refliquid", "exploration",
+   "complete product of loop parameters (length x offset x limit x reversed x cols x source kind x literal/variable arguments) and of nested-loop interrupt placements, compared with the reference interpreter",
+   "Every combination of the stated loop parameters is rendered with a body printing the item and every forloop/tablerow field; the output must equal the reference window/metadata computation. tablerow is compared modulo wrapper markup, whose row/col classes are checked separately. Exhaustive within the stated ranges.",
+   "reference window = elems[min(offset,len)..min(offset+limit,len)] then reversed; break/continue directly inside tablerow not generated",
+   "DESIGN.md §5 C05"),
+ "C06": (True, "enum+refliquid", "exploration",
+   "complete operator x value-pair matrix (differential against the value model's own comparison API plus an independent reference on uncontroversial cells), all truth assignments of if/elsif/else/unless chains, case/when arm sequences and and/or shapes",
+   "Exhaustive over the stated pools: exactly one branch marker must be printed, the truth of every atom must agree with ValueViewCmp and (where defined) the independent reference, branch choice must equal the reference interpreter's.",
+   "mixed and/or chains other than `x or y and z` are not generated (grouping not fixed by the statement)",
+   "DESIGN.md §5 C06"),
+ "C07": (True, "enum+refliquid", "exploration",
+   "exhaustive enumeration of all variable paths up to a step bound over nested data roots and of the listed literals, compared with a reference path resolver through a structural dump filter",
+   "Every path of <= L steps over the step alphabet (every index in [-len-2,len+1], keys colliding with first/last/size, indices through variables and nested paths, nil/undefined/array-valued indices) on 6-7 nested roots must dump the value the reference resolves, or fail with an error; every listed literal must print the value it denotes.",
+   "string index on array, first/last of objects/strings, size of non-string scalars are unspecified and skipped",
+   "DESIGN.md §5 C07"),
 }
 ORDER = ["C%02d" % i for i in range(1, 21)]
 REASON_WIP = "check not built yet in this round (work in progress; planned per DESIGN.md §5)"
